@@ -110,6 +110,72 @@ def run(ck):
 
 
 
+class _StateFlags:
+    """the fields of DispatcherInner that record "the source is registered": a bool (true / false) or a private
+    field-less two-variant enum (one variant stored by register, the other by unregister)"""
+
+    Q = "<RefCell<DispatcherInner> as EventDispatcher>::"
+
+    def __init__(self, ck):
+        f = self.f = ck.facts
+        self.rg, self.ur = ck.opt_body(self.Q + "register"), ck.opt_body(self.Q + "unregister")
+        self.flags = {}  # field -> (registered value, unregistered value); values: ("bool", 0/1) | ("variant", idx)
+        if self.rg is None or self.ur is None:
+            return
+        adt = next((a for pth, a in f.adts.items() if pth.endswith("::DispatcherInner") or pth == "sources::DispatcherInner"), None)
+        for v in (adt or {}).get("variants", []):
+            for fl in v.get("fields", []):
+                if fl.get("ty") is None:
+                    continue
+                ty = f.types[fl["ty"]]
+                if ty["s"] == "bool":
+                    if self.stores(self.rg, fl["name"], ("bool", 1)) and self.stores(self.ur, fl["name"], ("bool", 0)):
+                        self.flags[fl["name"]] = (("bool", 1), ("bool", 0))
+                    continue
+                ea = f.adts.get(ty.get("path")) if ty.get("k") == "adt" else None
+                if ea is not None and str(ea.get("kind", "")).lower() == "enum" and len(ea["variants"]) == 2 and all(not x.get("fields") for x in ea["variants"]):
+                    for a_, b_ in ((0, 1), (1, 0)):
+                        if self.stores(self.rg, fl["name"], ("variant", a_)) and self.stores(self.ur, fl["name"], ("variant", b_)) and not self.stores(self.rg, fl["name"], ("variant", b_)) and not self.stores(self.ur, fl["name"], ("variant", a_)):
+                            self.flags[fl["name"]] = (("variant", a_), ("variant", b_))
+
+    def _value(self, db, rv):
+        if rv["r"] == "use":
+            c = T.const_value(db, rv["o"], 8)
+            if c is not None and rv["o"].get("k") is not None or c in (0, 1):
+                ty = (rv["o"].get("k") or {}).get("ty")
+                if ty is None or self.f.types[ty]["s"] == "bool":
+                    return ("bool", c)
+            av = T.agg_variant(db, rv["o"])
+            if av and len({x[2] if len(x) > 2 else x[1] for x in av}) == 1:
+                for r_, p_ in db.resolve(rv["o"]):
+                    if r_[0] == "agg":
+                        return ("variant", db.agg_at(r_[1], r_[2]).get("variant_idx"))
+            return None
+        if rv["r"] == "agg" and rv.get("kind") == "adt" and not rv.get("fields"):
+            return ("variant", rv.get("variant_idx"))
+        return None
+
+    def stores(self, db, fld, val):
+        return [i for i, j, st in T.stores_to_field(db, fld) if not db.is_cleanup(i) and self._value(db, st["rv"]) == val]
+
+    def all_stores(self, db, fld):
+        return [(i, self._value(db, st["rv"])) for i, j, st in T.stores_to_field(db, fld) if not db.is_cleanup(i)]
+
+    def edges(self, db, want):
+        """edges of db taken when a state flag says registered (want=True) / not registered (want=False)"""
+        out = []
+        for sw in T.switches_on_expr(db, lambda e: e[0] in ("place", "call", "discr")):
+            kind, aps = T.switch_reads(db, sw)
+            names = {x[1:] for root, path in aps for x in path[-1:] if isinstance(x, str) and x.startswith(".")}
+            for fl in names & set(self.flags):
+                reg, unreg = self.flags[fl]
+                if reg[0] == "bool" and kind == "place":
+                    out += T.edges_of_value(db, sw, want)
+                elif reg[0] == "variant" and kind == "discr":
+                    out += T.discr_edges(db, sw, reg[1] if want else unreg[1])
+        return out
+
+
 def dispatcher_state_protocol(ck, C):
     """DispatcherInner::{register, reregister, unregister} against the source they wrap.
 
@@ -140,24 +206,14 @@ def dispatcher_state_protocol(ck, C):
             starts += [x for _, x in ok_e] if ok_e else [t_.to]
         return starts or [0]
 
-    adt = next((a for pth, a in f.adts.items() if pth.endswith("::DispatcherInner") or pth == "sources::DispatcherInner"), None)
-    bool_fields = [fl["name"] for v in (adt or {}).get("variants", []) for fl in v.get("fields", []) if fl.get("ty") is not None and f.types[fl["ty"]]["s"] == "bool"]
+    SF = _StateFlags(ck)
+    flags = sorted(SF.flags)
 
     def const_stores(db, fld, val):
-        return [i for i, j, st in T.stores_to_field(db, fld) if not db.is_cleanup(i) and st["rv"]["r"] == "use" and T.const_value(db, st["rv"]["o"], 8) == val]
-
-    flags = [fl for fl in bool_fields if const_stores(bodies["register"], fl, 1) and const_stores(bodies["unregister"], fl, 0)]
+        return SF.stores(db, fld, SF.flags[fld][0] if val == 1 else SF.flags[fld][1])
 
     def flag_edges(db, want):
-        out = []
-        for sw in T.switches_on_expr(db, lambda e: e[0] in ("place", "call")):
-            kind, aps = T.switch_reads(db, sw)
-            if kind != "place":
-                continue
-            names = {x[1:] for root, path in aps for x in path[-1:] if isinstance(x, str) and x.startswith(".")}
-            if names & set(flags):
-                out += T.edges_of_value(db, sw, want)
-        return out
+        return SF.edges(db, want)
 
     for meth in ("register", "reregister", "unregister"):
         db = bodies[meth]
@@ -240,24 +296,4 @@ def reregister_runs_only_when_registered(ck):
 
 def state_flag_edges(ck, db, want):
     """edges of `db` taken when the dispatcher's exact 'registered' flag has the value `want`"""
-    f = ck.facts
-    Q = "<RefCell<DispatcherInner> as EventDispatcher>::"
-    rg, ur = ck.opt_body(Q + "register"), ck.opt_body(Q + "unregister")
-    if rg is None or ur is None:
-        return []
-    adt = next((a for pth, a in f.adts.items() if pth.endswith("::DispatcherInner") or pth == "sources::DispatcherInner"), None)
-    bool_fields = [fl["name"] for v in (adt or {}).get("variants", []) for fl in v.get("fields", []) if fl.get("ty") is not None and f.types[fl["ty"]]["s"] == "bool"]
-
-    def cs_(b, fld, val):
-        return [i for i, j, st in T.stores_to_field(b, fld) if not b.is_cleanup(i) and st["rv"]["r"] == "use" and T.const_value(b, st["rv"]["o"], 8) == val]
-
-    flags = {fl for fl in bool_fields if cs_(rg, fl, 1) and cs_(ur, fl, 0)}
-    out = []
-    for sw in T.switches_on_expr(db, lambda e: e[0] in ("place", "call")):
-        kind, aps = T.switch_reads(db, sw)
-        if kind != "place":
-            continue
-        names = {x[1:] for root, path in aps for x in path[-1:] if isinstance(x, str) and x.startswith(".")}
-        if names & flags:
-            out += T.edges_of_value(db, sw, want)
-    return out
+    return _StateFlags(ck).edges(db, want)
